@@ -45,6 +45,8 @@ func calleeIs(p *eng.Prog, in ssa.Instruction, keys ...string) bool {
 func runC07(c *eng.Ctx) {
 	p := c.P
 	writtenMetricStaysActive(c)
+	pendingOutputClaimOrder(c)
+	rewindToTheAckIsAccepted(c)
 	closeFlushesOldestFirst(c)
 
 	// ---- 1. commit before ack, same sequences -----------------------------------------------------------
